@@ -111,6 +111,12 @@ CHECKS = {
    note="Exploration level: the quantifier of C01 (all character sequences, byte-level mutation) is a fuzzing quantifier; TLC contributes the generation, the oracle is trivial. Inputs longer than the bounds and arbitrary byte mutations are not covered. "
         "A hang is declared only when bash finishes the same text.",
    ref="DESIGN.md section 6 C01, section 11"),
+ "C12": dict(level=MC, thorough=True, tech="TLA+ Subshell.tla (parent and clone as records of component versions; Fork / Mutate / Join; invariant Isolation in the ideal configuration, OnlyProcessWideLeaks with the recorded deviation) explored exhaustively by TLC over 10 subshell contexts x every sequence of <= 2 of 34 mutators; every behaviour replayed in brush with bash audit by dumping the parent's full state before and after",
+   text="TLC proves on the model that only status and output flow back (Isolation) and, for the clone-in-one-process design, that only process-wide components can leak and only when the subshell changed them. Each of the 11560 behaviours "
+        "is turned into a script: a dump function records variables (declare -p), functions, set -o, shopt, aliases, traps, directory, umask, ulimit -a, positional parameters, /proc/self/fd, the directory stack and the hash table before "
+        "and after the subshell; the set of components that changed must equal the model's.",
+   note="Trusted: TLC, bash 5.2.15 (its dump must be unchanged for the case to count; volatile variables are filtered), /proc. Two recorded findings: umask / ulimit are process-wide; a finished coprocess leaves COPROC and its descriptors behind.",
+   ref="DESIGN.md section 6 C12"),
  "C13": dict(level=MC, thorough=True, tech="TLA+ Quote.tla (the shell reader for a quoted word: quotes, backslash, $'...' escapes, what would expand or split) evaluated by TLC on every recorded (value, rendering); plus eval round trips in brush and bash for word and declaration forms",
    text="Quote.tla is an independent reader; every value of <= 3 characters over a 12-symbol quoting alphabet (quotes, backslash, $, backquote, !, blank, newline, CR, control, multi-byte), values with special leading characters and seeded long random values "
         "is rendered by the real shell through printf %q, ${v@Q}, ${v@A}, declare -p (scalar / indexed / associative), export -p, set, alias, trap -p and the set -x trace; TLC checks Read(text) = value on every word-form record and each rendering is eval'ed in a fresh brush and a fresh bash.",
